@@ -552,7 +552,7 @@ def set_rejected(rejected):
     res = core.pmap('hist_json', [{'hex': r['hex']} for r in keep], limit=120) if keep else []
     for r, (st, j) in zip(keep, res):
         ent = {'ref': r['ref'], 'hex': r['hex'], 'cls': '?', 'json': '[]', 'qs': [], 'key': None,
-               'marker': False, 'nsub': 0, 'twin': None, 'rej': True,
+               'marker': False, 'nsub': 0, 'twin': r.get('twin'), 'rej': True,
                'opkind': 'wide' if r['ref'].startswith('synop') and _is_wide(r['hex']) else None}
         if st == 'ok' and j is not None:
             ent.update({'json': j['json'], 'nsub': j['nsub'], 'key': j['key'], 'marker': j['marker'], 'soft': True,
@@ -624,6 +624,15 @@ def gen_plan(family, seed, msgs, tier='quick', index=None):
         def dec(k):
             return {'op': 'decode', 'c': 0, 'm': k, 'wire': not group[k].get('soft'), 'ive': False}
         ops = [dec(0)] + [dec(k) for k in range(1, len(group))] + [dec(0)]
+        # a companion of the same twin group that NEITHER path can turn into a template (it fails inside the
+        # shared Table D sequence), met twice before anything else: what the failed attempts leave behind in a
+        # long-lived compiler must not be held against the good templates that hold the same sequence
+        bad = [x for x in REJECTED if x.get('twin') and x.get('twin') == m.get('twin') and not x.get('soft')]
+        if bad:
+            group.append(dict(bad[0]))
+            kb = len(group) - 1
+            ops = [{'op': 'decode', 'c': 0, 'm': kb, 'wire': True, 'ive': False},
+                   {'op': 'decode', 'c': 0, 'm': kb, 'wire': False, 'ive': False}] + ops
         ops += [{'op': 'encode', 'c': 0, 'm': k} for k in range(len(group))]
         ops += [{'op': 'save_compiled', 'c': 0}, {'op': 'restart', 'c': 0}, {'op': 'load_compiled', 'c': 0}]
         ops += [dec(k) for k in range(len(group) - 1, -1, -1)]
